@@ -250,6 +250,8 @@ class ObjInterp(Interp):
     def external(self, name, args, kwargs):
         if name in ("copy.deepcopy", "copy.copy"):
             return copy.deepcopy(args[0]) if name.endswith("deepcopy") else copy.copy(args[0])
+        if name == "logging.getLogger":
+            return Obj(_kind="logger")
         if name.startswith("logging.") or name.startswith("logger."):
             return None
         if name == "itertools.groupby":
